@@ -41,10 +41,14 @@ CHECKS = {
     "C04": {
         "level": "Hypothesis-generated grammars with none/one/both trivia rules and all rule modifiers, inputs "
         "with trivia injected at every position class, compared in all four execution modes with the "
-        "reference evaluator (outcome and full tree including trivia pairs and children of atomic rules).",
+        "reference evaluator (outcome and full tree including trivia pairs and children of atomic rules); plus two "
+        "deterministic matrices: all 194 WHITESPACE x COMMENT definitions around fixed rules using every modifier "
+        "with trivia in every gap, and every assignment of the five modifiers to rule chains of length 2..3 "
+        "(quick) / 2..4 (thorough) x three trivia settings x trivia in every subset of levels.",
         "note": "Trusted: the reference evaluator's reading of pest's skip/atomicity rules (DESIGN.md 3). Trivia "
         "rules with atomicity modifiers or stack effects are unspecified and not generated.",
-        "technique": "Hypothesis generation against a reference-model oracle in four execution modes",
+        "technique": "Hypothesis generation + exhaustive small-scope configuration matrices against a "
+        "reference-model oracle in four execution modes",
         "ref": "DESIGN.md 3, 4 C04",
     },
     "C05": {
@@ -80,7 +84,8 @@ CHECKS = {
         "level": "Generated-text search: random derivations from pest's meta-grammar, random ASTs printed in a "
         "randomised free layout, the 15 bundled grammars and single-token mutations of all of them; the "
         "transcribed meta-grammar (run by the reference evaluator) decides validity and denotes the expected "
-        "structure; python-pest must accept exactly the valid texts and build that structure.",
+        "structure; python-pest must accept exactly the valid texts and build that structure. Plus a "
+        "deterministic matrix of 4,347 texts: every escape form, intact and damaged, in every literal position.",
         "note": "Trusted: the hand transcription of tests/grammars/meta.pest (self-checked as a fix-point in every "
         "run, exit 2 otherwise) and the normalisation applied to both sides.",
         "technique": "grammar-based generation + token mutation, differential oracle against pest's own "
@@ -92,10 +97,14 @@ CHECKS = {
         "token soups, Hypothesis text; outcome must be a Parser or a PestGrammarError whose message renders and "
         "points inside the text (column base calibrated from the implementation); hand-picked endings, huge "
         "numbers, surrogates, recursive stop rules, flat chains of 2,500 operands; with and without the "
-        "optimizer; step budget decides termination (wall-clock time-outs are counted as inconclusive).",
+        "optimizer; step budget decides termination (wall-clock time-outs are counted as inconclusive). Thorough "
+        "tier: additionally one coverage-guided Atheris/libFuzzer campaign of 400,000 runs per shard whose "
+        "candidates and corpus are re-judged by the same oracle.",
         "note": "Trusted: nothing beyond the outcome classification. RecursionError on deeply nested texts (>= 100 "
-        "nesting characters) is the open known finding K04 and only counted; anywhere else it is a violation.",
-        "technique": "exhaustive truncation + mutation + Hypothesis text generation, totality oracle",
+        "nesting characters) is the open known finding K04 and only counted; anywhere else it is a violation. Texts "
+        "whose syntactically estimated unrolled size exceeds 2e6 are not loaded (open known finding K05).",
+        "technique": "exhaustive truncation + mutation + Hypothesis text generation + coverage-guided fuzzing "
+        "(Atheris, thorough tier), totality oracle",
         "ref": "DESIGN.md 4 C11",
     },
     "C12": {
@@ -103,7 +112,8 @@ CHECKS = {
         "rules in four modes; boundary-focused (quick) / exhaustive (thorough) sweeps for a Hypothesis-generated "
         "family of ranges, literals and merged choices and for Unicode property rules (cross-mode equality); "
         "a deterministic matrix of 19 regex-special characters x 9 syntactic roles; case-insensitive literals "
-        "(ASCII folding only, exact member sets for every code point); every escape form.",
+        "(ASCII folding only, exact member sets for every code point); every escape form in string, "
+        "case-insensitive string, PUSH_LITERAL and both range positions, and after an escaped backslash.",
         "note": "Trusted: explicit set definitions taken from the pest book; Unicode property rules are only "
         "compared across modes.",
         "technique": "exhaustive code-point enumeration + Hypothesis-generated character classes against explicit "
